@@ -1,5 +1,6 @@
 import GBProofs.Props.C16
 import GBProofs.Layout
+import GBProofs.SphericalNorm
 /-!
 # C01 / C07 — documented layout and "asymmetric = block of the union"
 `Layout.lean`: `locate_offset` / `locate_lt` (basis index ↔ (shell, segment, function): shell, then
@@ -9,3 +10,12 @@ shells `(i, j)`), `assemble2_get` (row-major flat array), `entry2_append` / `ass
 (**the array of two different bases is the off-diagonal block of the array of their union**, for every
 block function that depends only on the two shells — overlap in particular).
 -/
+
+/-! `SphericalNorm.lean`: the overlap metric of the unit-normalised Cartesian functions of one shell is the universal
+`Sov` (`normalised_overlap_same_shell`, from the one-centre structure `metric · Φ_m` of the recursion tables), hence with the
+kernel-checked orthonormality of the solid-harmonic rows the same-segment block of a spherical shell is the identity
+(`spherical_block_orthonormal`, l ≤ 10) and **every diagonal entry of the model's overlap array is 1**
+(`overlap_array_diag_one`, Cartesian and spherical shells). -/
+namespace GB.C01
+alias every_function_unit_normalised := overlap_array_diag_one
+end GB.C01
